@@ -405,6 +405,7 @@ pub fn c02prune() -> bool {
             doc.entry(0, b"a/2", 30, 1),  // newer child: stays
             doc.entry(0, b"ab", 90, 1),   // starts with "a", older: removed
             doc.entry(0, b"a\xff", 60, 1), // starts with "a", older: removed
+            SignedEntry::from_entry(Entry::new(doc.id(0, b"a/old-deletion/"), Record::empty(doc.now - 1_000_000 - 80)), &doc.ns, &doc.authors[0]), // an older deletion marker below "a": removed like any entry
             doc.entry(0, b"b", 95, 1),    // neighbouring key: stays
             doc.entry(0, b"", 99, 1),     // the empty key is a prefix of "a", older than it: stays (it is not BELOW "a")
             doc.entry(1, b"a/1", 99, 1),  // other author: stays
@@ -428,8 +429,8 @@ pub fn c02prune() -> bool {
         want.sort();
         let mut got = keys.clone();
         got.sort();
-        if before != 8 || !matches!(removed, Ok(3)) || got != want {
-            eprintln!("c02prune: before {before} entries; insert reported {:?} removed (expected 3); left {:?}, expected {:?}", removed, got, want);
+        if before != 9 || !matches!(removed, Ok(4)) || got != want {
+            eprintln!("c02prune: before {before} entries; insert reported {:?} removed (expected 4); left {:?}, expected {:?}", removed, got, want);
             bad = true;
         }
     }
